@@ -11,6 +11,8 @@ import (
 	"fmt"
 	"math/rand"
 	"os"
+	"os/exec"
+	"path/filepath"
 	"sort"
 	"strings"
 	"sync"
@@ -36,6 +38,70 @@ type Ctx struct {
 	Samples  []any
 	Viol     []Violation
 	Notes    map[string]any
+	Mism     []Violation // disagreements between the model (asked as an oracle) and the implementation
+	oracle   *exec.Cmd
+	oin      *bufio.Writer
+	oout     *bufio.Reader
+	OracleN  int
+}
+
+// Model asks the extracted Coq model (bin/runner, one persistent process) for its answer to one call.
+// The harness uses it where a model output has to be bridged to implementation values by an independent
+// primitive (e.g. a model exponent turned into a curve point by the standard library).
+func (c *Ctx) Model(name string, args ...[]byte) [][]byte {
+	c.mu.Lock()
+	defer c.mu.Unlock()
+	if c.oracle == nil {
+		exe, _ := os.Executable()
+		path := os.Getenv("VERIF_RUNNER")
+		if path == "" {
+			path = filepath.Join(filepath.Dir(exe), "runner")
+		}
+		cmd := exec.Command(path)
+		in, _ := cmd.StdinPipe()
+		out, _ := cmd.StdoutPipe()
+		cmd.Stderr = os.Stderr
+		if err := cmd.Start(); err != nil {
+			panic("cannot start model runner: " + err.Error())
+		}
+		c.oracle, c.oin, c.oout = cmd, bufio.NewWriter(in), bufio.NewReaderSize(out, 1<<20)
+	}
+	var sb strings.Builder
+	sb.WriteString(name)
+	for _, a := range args {
+		sb.WriteByte(' ')
+		sb.WriteString(Hex(a))
+	}
+	sb.WriteByte('\n')
+	c.oin.WriteString(sb.String())
+	c.oin.Flush()
+	line, err := c.oout.ReadString('\n')
+	if err != nil {
+		panic("model runner died: " + err.Error())
+	}
+	c.OracleN++
+	var outs [][]byte
+	for _, f := range strings.Fields(line) {
+		if f == "-" {
+			outs = append(outs, []byte{})
+			continue
+		}
+		b, err := hex.DecodeString(f)
+		if err != nil {
+			panic("model runner answered garbage: " + line)
+		}
+		outs = append(outs, b)
+	}
+	return outs
+}
+
+// Mismatch records a disagreement between a model answer and the implementation (correspondence, not predicate).
+func (c *Ctx) Mismatch(clause string, detail map[string]any) {
+	c.mu.Lock()
+	defer c.mu.Unlock()
+	if len(c.Mism) < 50 {
+		c.Mism = append(c.Mism, Violation{clause, detail})
+	}
 }
 
 func NewCtx(prop, tier string, seed int64, casesPath string) *Ctx {
@@ -46,6 +112,64 @@ func NewCtx(prop, tier string, seed int64, casesPath string) *Ctx {
 	return &Ctx{Prop: prop, Tier: tier, Seed: seed, Rng: rand.New(rand.NewSource(seed)),
 		w: bufio.NewWriterSize(f, 1<<20), f: f, Cats: map[string]int{}, Distinct: map[string]struct{}{},
 		Notes: map[string]any{}}
+}
+
+// Parallel runs f on n sub-contexts concurrently. Each sub-context has its own PRNG (derived from the seed and its
+// index, so runs replay exactly), its own case file and its own model oracle process; results are merged into c
+// in index order afterwards.
+func (c *Ctx) Parallel(n int, f func(i int, sub *Ctx)) {
+	c.w.Flush()
+	subs := make([]*Ctx, n)
+	var wg sync.WaitGroup
+	for i := 0; i < n; i++ {
+		subs[i] = NewCtx(c.Prop, c.Tier, c.Seed*1000003+int64(i)+1, fmt.Sprintf("%s.part%d", c.f.Name(), i))
+		wg.Add(1)
+		go func(i int) {
+			defer wg.Done()
+			defer func() {
+				if r := recover(); r != nil {
+					subs[i].Violation("implementation panicked outside a protected call", map[string]any{"panic": fmt.Sprint(r)})
+				}
+			}()
+			f(i, subs[i])
+		}(i)
+	}
+	wg.Wait()
+	for _, s := range subs {
+		if s.oracle != nil {
+			s.oin.Flush()
+			s.oracle.Process.Kill()
+			s.oracle.Wait()
+		}
+		s.w.Flush()
+		s.f.Close()
+		if b, err := os.ReadFile(s.f.Name()); err == nil {
+			c.w.Write(b)
+		}
+		os.Remove(s.f.Name())
+		c.Cases += s.Cases
+		c.Evals += s.Evals
+		c.OracleN += s.OracleN
+		for k, v := range s.Cats {
+			c.Cats[k] += v
+		}
+		for k := range s.Distinct {
+			c.Distinct[k] = struct{}{}
+		}
+		for _, x := range s.Samples {
+			if len(c.Samples) < 24 {
+				c.Samples = append(c.Samples, x)
+			}
+		}
+		c.Viol = append(c.Viol, s.Viol...)
+		c.Mism = append(c.Mism, s.Mism...)
+		for k, v := range s.Notes {
+			c.Notes[k] = v
+		}
+	}
+	if len(c.Viol) > 50 {
+		c.Viol = c.Viol[:50]
+	}
 }
 
 func (c *Ctx) Thorough() bool { return c.Tier == "thorough" }
@@ -151,6 +275,11 @@ func Protect(f func()) (panicked bool, msg string) {
 }
 
 func (c *Ctx) Finish(resultPath string) {
+	if c.oracle != nil {
+		c.oin.Flush()
+		c.oracle.Process.Kill()
+		c.oracle.Wait()
+	}
 	c.w.Flush()
 	c.f.Close()
 	cats := make([]string, 0, len(c.Cats))
@@ -162,6 +291,7 @@ func (c *Ctx) Finish(resultPath string) {
 		"property": c.Prop, "tier": c.Tier, "seed": c.Seed,
 		"cases": c.Cases, "evaluations": c.Evals, "distinct_nontrivial": len(c.Distinct),
 		"categories": c.Cats, "samples": c.Samples, "violations": c.Viol, "notes": c.Notes,
+		"model_mismatches": c.Mism, "oracle_calls": c.OracleN,
 	}
 	b, _ := json.MarshalIndent(res, "", " ")
 	os.WriteFile(resultPath, b, 0o644)
